@@ -70,7 +70,7 @@ def _worker(key: str) -> dict:
                 rec["pending"].append((ob.ident, text, ob.detail))
             rec["obligations"].append({
                 "id": ob.ident, "kind": ob.kind, "line": ob.line, "status": ob.status, "backend": ob.backend,
-                "time_s": round(ob.time_s, 3), "tags": list(ob.tags), "detail": ob.detail[:2000], "note": ob.note,
+                "time_s": round(ob.time_s, 3), "tags": list(ob.tags), "detail": ob.detail[:2000], "note": ob.note, "trace": list(ob.trace),
             })
         rec["paths"] = eng.paths_explored
         rec["pruned"] = eng.infeasible_pruned
@@ -134,7 +134,17 @@ def run_property(prop: str, tier: str, seed: int, update_baseline: bool = False)
                     o.update(status=d["status"], backend=d["backend"], time_s=round(o["time_s"] + d["time_s"], 3), detail=(d["detail"] or o["detail"])[:2000])
     baseline = load_json(BASELINE, {})
     known = load_json(KNOWN, {"findings": [], "fixed": []})
-    known_ids = {(f["property"], f["obligation"]): f for f in known.get("findings", [])}
+    known_list = known.get("findings", [])
+
+    def match_known(o):
+        """A recorded finding matches only its own obligation AND its own failing history (path signature)."""
+        for f in known_list:
+            if f["property"] not in (prop, "*") or f["obligation"] != strip_n(o["id"]):
+                continue
+            tr = " | ".join(o.get("trace", []))
+            if all(sub in tr for sub in f.get("path_contains", [])) and not any(sub in tr for sub in f.get("path_excludes", [])):
+                return f
+        return None
 
     total = discharged = 0
     violations: list[dict] = []
@@ -187,7 +197,7 @@ def run_property(prop: str, tier: str, seed: int, update_baseline: bool = False)
             if o["status"] in ("vacuous", "engine-disagreement"):
                 errors.append(f"{o['id']}: {o['status']} {o['detail']}")
                 continue
-            kf = known_ids.get((prop, strip_n(o["id"]))) or known_ids.get(("*", strip_n(o["id"])))
+            kf = match_known(o)
             if kf is not None:
                 known_hit.append({"obligation": o["id"], "finding": kf})
                 continue
